@@ -42,12 +42,18 @@ def run(ctx):
         try:
             for oc, rel, p in cell.paths:
                 if oc == "EQKEEP":
+                    # the `self == other` shortcut: for two constants of one kind, derived equality is equality of the
+                    # payloads, so this path is taken exactly for the ordering Equal
+                    succ.add("Equal")
                     continue
                 if oc not in ("KEEP", "FAIL"):
                     ok = False
                     why.append("outcome %s" % oc)
                     continue
+                eq_false = any(utable.is_eq_self_other(c) and v is False for c, v, _ in p.decisions if c[0] != "variant")
                 for o in fdeval.ORDERINGS:
+                    if eq_false and o == "Equal":
+                        continue        # `self == other` was found false on this path: the payloads differ
                     if fdeval.path_feasible(rel, L, R, o):
                         if oc == "KEEP":
                             succ.add(o)
@@ -124,10 +130,21 @@ def run(ctx):
                 okn = True
             if n0[0] == "binop" and n0[1] == "Add" and strip(n0[2]) == sid and n0[3][3] == 1:
                 okn = True
+
+            def _is_len(t):
+                t = strip(t)
+                return t[0] == "call" and t[1].endswith("::len") and is_param(t[2][0], 3)
+
+            def _is_id1(t):
+                t = strip(t)
+                return t[0] == "binop" and t[1] == "Add" and strip(t[2]) == sid and t[3][0] == "const" and t[3][3] == 1
+            if n0[0] == "call" and n0[1].endswith("::max") and len(n0[2]) == 2 and \
+                    ((_is_len(n0[2][0]) and _is_id1(n0[2][1])) or (_is_len(n0[2][1]) and _is_id1(n0[2][0]))):
+                okn = True          # max(len(ss), id + 1): long enough for both the copy and the new entry
             if not okn:
                 r3["len"] = False
                 r3why["len"] = "length of the new vector is %s, not len(ss) or self.id+1" % show(n)
-            elif n0[0] == "call":
+            elif n0[0] == "call" and n0[1].endswith("::len"):
                 # the old length is kept: only allowed when self.id < len(ss) was established on this path
                 est = False
                 for c, v, bb in p.decisions:
